@@ -23,11 +23,20 @@ Record Inv (s : st) : Prop := {
   (* a wrapper and the entry it holds agree: borrow temporaries hold borrow entries, user-owned wrappers hold own entries *)
   inv_agree : forall w x, In (w, x) (ws s) -> w_handle x <> MAXH ->
       exists e, lookup (w_handle x) (tbl s) = Some e /\ e_own e = negb (w_temp x) /\ e_kind e = w_kind x;
+  (* [strengthening needed for the induction] between two operations no live wrapper holds the "taken" sentinel: the
+     wrapper whose handle was taken by [UPassOwn] is dropped within the same operation *)
+  inv_no_sentinel : forall w x, In (w, x) (ws s) -> w_handle x <> MAXH;
   inv_lends : forall h e, In (h, e) (tbl s) -> e_lends e = 0;
+  (* [strengthening] borrow entries in the guest's table are borrows of imported resources (a borrow of an exported
+     resource is passed as the bare rep, CanonicalABI lower_borrow) *)
+  inv_borrow_imported : forall h e, In (h, e) (tbl s) -> e_own e = false -> e_kind e = Imported;
   inv_need_drop : need_drop s = N.of_nat (length (borrow_entries s));
   inv_temps : in_export s = false -> temps s = [] /\ need_drop s = 0;
   (* every live box of an exported resource has exactly one owner: an own handle in this table or one held outside *)
   inv_boxes : Permutation (keys (reps s)) (exported_own_reps s ++ hostown s);
+  (* [strengthening] between two operations every live box still holds its value: [into_inner] takes the value and
+     releases the box within the same operation *)
+  inv_boxes_some : forall r c, In (r, c) (reps s) -> exists v, c = RSome v;
   inv_free_fresh : forall i, In i (freeh s) -> ~ In i (keys (tbl s));
   inv_free_nodup : NoDup (freeh s);
   inv_idx_range : forall i, In i (keys (tbl s)) \/ In i (freeh s) -> 0 < i < nexth s;
@@ -58,6 +67,8 @@ Record Ledger (s : st) : Prop := {
   led_box : cnt is_newbox s = (cnt is_dtor s + length (reps s))%nat;
   led_dtor_once : NoDup (dtor_reps s);
   led_dtor_dead : forall r, In r (dtor_reps s) -> ~ In r (keys (reps s));
+  (* [strengthening needed for the induction] a released box address is never handed out again by [UNew] *)
+  led_dtor_range : forall r, In r (dtor_reps s) -> r < nextrep s;
   (* every Rust value ever boxed was destroyed exactly once, or moved out to the user exactly once, or is still boxed *)
   led_val : cnt is_newbox s = (cnt is_destroyed s + cnt is_touser s + some_boxes s)%nat
 }.
